@@ -555,8 +555,16 @@ func checkParserMemory(p *Prog, l *Ledger, rule string) {
 					return
 				}
 				n++
-				if _, fresh := embRoot(fa.X).(*ssa.Alloc); fresh {
-					return // the literal of a constructor
+				var root ssa.Value = fa.X
+				for {
+					inner, isFA := root.(*ssa.FieldAddr)
+					if !isFA {
+						break
+					}
+					root = inner.X
+				}
+				if _, fresh := root.(*ssa.Alloc); fresh {
+					return // the literal of a constructor (nested struct literals included)
 				}
 				if tn == cp.posType && f == cp.posField {
 					return
